@@ -1009,6 +1009,8 @@ class Interp:
             return self.bytes_binop(op, a, b, node, frame, inplace)
         if isinstance(a, Obj) or isinstance(b, Obj):
             raise Unsupported('operator on objects at %s' % self.here(node, frame))
+        if sx.is_bv(a) or sx.is_bv(b):
+            return self.bv_binop(op, a, b, node, frame)
         sym = is_sym(a) or is_sym(b)
         if not sym:
             try:
@@ -1061,6 +1063,41 @@ class Interp:
         if isinstance(op, ast.Div):
             raise Unsupported('true division on symbolic ints at %s' % self.here(node, frame))
         raise Unsupported('binop %s' % type(op).__name__)
+
+    def bv_binop(self, op, a, b, node, frame):
+        """Bit-vector mode (CRC-style code): values are unsigned 64-bit vectors that are proved never to
+        lose bits: only ^ & | >> << are allowed, and << carries a no-overflow obligation."""
+        w = (a if sx.is_bv(a) else b).size()
+
+        def lift(x):
+            if sx.is_bv(x):
+                return x
+            if is_sym(x):
+                if z3.is_bool(x):
+                    x = z3.If(x, 1, 0)
+                self.ctx.oblige('bv-range@%s' % self.here(node, frame), z3.And(x >= 0, x < (1 << (w - 1))), {'kind': 'safety'})
+                return z3.Int2BV(x, w)
+            if isinstance(x, bool):
+                x = int(x)
+            if not isinstance(x, int) or x < 0 or x >= (1 << w):
+                raise Unsupported('bit-vector op with %r' % (x,))
+            return z3.BitVecVal(x, w)
+        if isinstance(op, (ast.LShift, ast.RShift)):
+            if is_sym(b):
+                raise Unsupported('symbolic shift amount')
+            if isinstance(op, ast.RShift):
+                return z3.LShR(lift(a), b)
+            la = lift(a)
+            self.ctx.oblige('bv-shl-no-overflow@%s' % self.here(node, frame), z3.LShR(la, w - b) == 0, {'kind': 'safety'})
+            return la << b
+        la, lb = lift(a), lift(b)
+        if isinstance(op, ast.BitXor):
+            return la ^ lb
+        if isinstance(op, ast.BitAnd):
+            return la & lb
+        if isinstance(op, ast.BitOr):
+            return la | lb
+        raise Unsupported('operator %s on bit-vector values at %s' % (type(op).__name__, self.here(node, frame)))
 
     @staticmethod
     def native_binop(op, a, b):
@@ -1143,6 +1180,11 @@ class Interp:
             raise Unsupported('ordering on %s' % a.cls.name)
         if V.is_bytes(a) and V.is_bytes(b):
             return self.bytes_order(op, a, b)
+        if sx.is_bv(a) or sx.is_bv(b):
+            w = (a if sx.is_bv(a) else b).size()
+            la = a if sx.is_bv(a) else (z3.Int2BV(a, w) if is_sym(a) else z3.BitVecVal(a, w))
+            lb = b if sx.is_bv(b) else (z3.Int2BV(b, w) if is_sym(b) else z3.BitVecVal(b, w))
+            return {ast.Lt: z3.ULT, ast.LtE: z3.ULE, ast.Gt: z3.UGT, ast.GtE: z3.UGE}[type(op)](la, lb)
         if is_sym(a) or is_sym(b):
             for x in (a, b):
                 if not is_sym(x) and not isinstance(x, (int, bool)):
@@ -1364,6 +1406,18 @@ class Interp:
             return o._pyvc_getitem(self, idx, node, frame)
         if isinstance(o, dict):
             return o[self.dict_key(o, idx, node, frame)]
+        if sx.is_bv(idx) and isinstance(o, (list, tuple)) and all(isinstance(x, int) for x in o):
+            w = idx.size()
+            if not self.branch(z3.ULT(idx, len(o))):
+                self.raise_exc('IndexError', 'index out of range', self.here(node, frame))
+            cache = self.ctx.ghost.setdefault('bv_tables', {})
+            key = (id(o), w)
+            if key not in cache:
+                arr = z3.K(z3.BitVecSort(w), z3.BitVecVal(0, w))
+                for i, x in enumerate(o):
+                    arr = z3.Store(arr, z3.BitVecVal(i, w), z3.BitVecVal(x, w))
+                cache[key] = (o, arr)
+            return z3.Select(cache[key][1], idx)
         if isinstance(o, (list, tuple, str, bytes, bytearray, SBytes, range)):
             n = len(o)
             if isinstance(idx, slice):
